@@ -22,14 +22,18 @@ def groups():
     G.append(Group('heap.b.seq', ['C07'], 'B', S, 'h_b_seq', sources=src, defines=['-DVF_B=1', '-DVF_LENLO=0', '-DVF_LENHI=3'], unwind=30, replay=True, timeout=900,
                    what=chk + 'every key sequence of length 0..3 over {0,1,2}: push all, pop all (popped element in the model, maximal, removed exactly), pop/get on the empty heap = NULL',
                    scope='40 key sequences of length 0..3, keys {0,1,2}; element pointers concrete'))
-    G.append(Group('heap.b.seq.len4', ['C07'], 'B', S, 'h_b_seq', sources=src, defines=['-DVF_B=1', '-DVF_LENLO=4', '-DVF_LENHI=4'], unwind=84, replay=True, timeout=900,
-                   what=chk + 'every key sequence of length 4 over {0,1,2}: push all, pop all, pop/get on the empty heap = NULL',
-                   scope='81 key sequences of length 4, keys {0,1,2}'))
+    # one CBMC run costs about 0.06 s of symbolic execution per heap operation (all values concrete, no solver work),
+    # and the runner makes three passes (check, trace, vacuity): 27 key sequences per group keep a group under ~2 minutes
     for k in range(3):
-        G.append(Group('heap.b.seq.len5.%d' % k, ['C07'], 'B', S, 'h_b_seq', sources=src, tier='thorough', unwind=84, replay=True, timeout=1800,
-                       defines=['-DVF_B=1', '-DVF_LENLO=5', '-DVF_LENHI=5', '-DVF_CODELO=%d' % (81 * k), '-DVF_CODEHI=%d' % (81 * (k + 1))],
-                       what=chk + 'key sequences of length 5 over {0,1,2}, codes %d..%d of 243: push all, pop all, pop/get on the empty heap = NULL' % (81 * k, 81 * k + 80),
-                       scope='81 of the 243 key sequences of length 5 (last key = %d), keys {0,1,2}' % k))
+        G.append(Group('heap.b.seq.len4.%d' % k, ['C07'], 'B', S, 'h_b_seq', sources=src, unwind=30, replay=True, timeout=900,
+                       defines=['-DVF_B=1', '-DVF_LENLO=4', '-DVF_LENHI=4', '-DVF_CODELO=%d' % (27 * k), '-DVF_CODEHI=%d' % (27 * (k + 1))],
+                       what=chk + 'key sequences of length 4 over {0,1,2} whose last key is %d (27 of 81): push all, pop all, pop/get on the empty heap = NULL' % k,
+                       scope='27 of the 81 key sequences of length 4, keys {0,1,2}'))
+    for k in range(9):
+        G.append(Group('heap.b.seq.len5.%d' % k, ['C07'], 'B', S, 'h_b_seq', sources=src, tier='thorough', unwind=30, replay=True, timeout=1800,
+                       defines=['-DVF_B=1', '-DVF_LENLO=5', '-DVF_LENHI=5', '-DVF_CODELO=%d' % (27 * k), '-DVF_CODEHI=%d' % (27 * (k + 1))],
+                       what=chk + 'key sequences of length 5 over {0,1,2} whose last two keys are %d,%d (27 of 243): push all, pop all, pop/get on the empty heap = NULL' % (k % 3, k // 3),
+                       scope='27 of the 243 key sequences of length 5, keys {0,1,2}'))
     G.append(Group('heap.b.mix', ['C07'], 'B', S, 'h_b_mix', sources=src, defines=['-DVF_B=2'], unwind=12, replay=True, timeout=900,
                    what=chk + 'interleavings: for s = 1..7 build size s, three pop/push pairs at size s (slot reuse), drain to s/2, push/push/pop ramp to size 7 '
                         '(pops at sizes 2..8), drain, pop on empty; keys 3,1,4,1,5,9,2,6,... mod 4',
